@@ -412,5 +412,6 @@ pub fn subs() -> Vec<Box<dyn DynSub>> {
         sub(Sub { name: "c08.generated_times", source: Source::Gen(valid_gen_strategy, 800_000, 20_000_000), oracle: valid_oracle, known: no_known, hang_is_violation: false }),
         sub(Sub { name: "c08.second_60", source: Source::Enum(leap60_enum, |_| true), oracle: reject_oracle, known: reject_known, hang_is_violation: false }),
         sub(Sub { name: "c08.rejection", source: Source::Gen(reject_strategy, 800_000, 12_000_000), oracle: reject_oracle, known: reject_known, hang_is_violation: false }),
+        crate::props::fuzzsub::fc08(),
     ]
 }
